@@ -184,9 +184,32 @@ CLAIMED = {
   note=COMMON_NOTE + "CPython re search outcomes, Mako rendering, the rule compilers and Python import are executed on the finite space, not "
        "modelled; the translator is in the trusted base.",
   design="§5 C18", technique="translation of devdb/vendor/template tables into Lean + decide +kernel table theorems + general proofs + exhaustive execution"),
+ "C04": dict(
+  text="Lean theorems over the model of join (blocks/indent) and every vendor's split (Common, Huawei, Cisco _split_indent, Nexus-like "
+       "split_remove_spaces, Asr, Juniper/Ribbon/Nokia _formatted_blocks + sub_regexs, RouterOS) composed with the offside parser (C05): "
+       "for all 14 registered vendors and every tree of any depth in the explicit decidable well-formed domain, parse(join(t)) = t and "
+       "join(parse(join t)) = join t (after repairs c926070, 13137d1 also Cisco address-family blocks and nested RouterOS sections); "
+       "whatever the Common parser returns is inside the domain. Kernel-checked witnesses that the two OLD rules did not round-trip. "
+       "Tie: formatter.join / parse_to_tree(split) vs the model on 95k (quick) trees and device-style texts for all vendors incl. "
+       "exhaustive small trees; oracle: the round trip and fixed point on the real code.",
+  note=COMMON_NOTE + "the six regexes are re-stated as list functions (validated by the tie only); Juniper comment rows and the RouterOS /file "
+       "and /user ssh-keys post-processors are outside the domain; tab indents are tie-only.",
+  design="§5 C04", technique="Lean 4 proof (render/parse inversion by induction over trees, per-vendor splitters) + differential correspondence, exhaustive small trees"),
+ "C20": dict(
+  text="TRANSLATION + proof over an effect model: harness/props/c20.py regenerates lean/AnnetModel/Gen/Effects.lean from the Python ASTs of "
+       "/repo on every run (write sets of every function reachable from the %logic/%diff_logic names of the shipped rule files and the "
+       "three deepcopy flags of make_diff, make_patch, _select_match). Lean theorems: with the copies in place and confined logics no job "
+       "writes the compiled rulebook, a global, or the caller's trees; a job after any history gives what it gives in a fresh process; "
+       "items of one job are independent; the ACL scratch field never influences a result; the regenerated table is confined and the "
+       "flags hold (decide); kernel-checked witnesses that each copy / confinement is needed. Oracle (what finds failing inputs): deep "
+       "snapshots of old/new/rulebook around every real call, recorded writes of logics vs the table, and a fresh-subprocess history "
+       "differential over the 192 corpus jobs and synthetic rulebooks incl. a test-only mutating logic.",
+  note=COMMON_NOTE + "the AST write-set extraction is syntactic (its link to semantic confinement is validated by snapshots, not proved); "
+       "deepcopy/lru_cache/object identity as documented; one level of rules in the heap model.",
+  design="§5 C20", technique="translation of Python ASTs into a Lean effect table + proof of non-interference over the effect model + effect validation and fresh-process differential"),
 }
 REASONS = {}
-PENDING = {"C04": "merged, being re-pointed to the repaired code (fixes c926070, 13137d1)", "C13": "temporarily withdrawn: model being re-pointed to the repaired code (fix 33969c0); see DESIGN.md 11"}
+PENDING = {}
 for _p, _r in PENDING.items():
     CLAIMED.pop(_p, None)
     REASONS[_p] = _r
